@@ -171,6 +171,7 @@ def oracle(case, rec):
                 v[i] = (np.inf, -np.inf, 0.0, -v[i], np.nan)[r]
         return v
 
+    held = {}
     for vals_kind in ('distinct', 'special'):
         cv = 100.0 + np.arange(K)
         sv = 200.0 + np.arange(S)
@@ -179,6 +180,8 @@ def oracle(case, rec):
             cv, sv, hv = special(cv, N + K), special(sv, N + K + 3), special(hv, N + K + 6)
 
         def expect_proj(name, got, exp):
+            if vals_kind == 'distinct' and isinstance(got, np.ndarray):
+                held.setdefault(name, (got, np.array(got, dtype=float)))     # kept by the caller across the later calls
             got = np.asarray(got, dtype=float)
             if got.shape != exp.shape or not np.array_equal(np.isnan(got), np.isnan(exp)) or \
                     not np.array_equal(got[~np.isnan(exp)], exp[~np.isnan(exp)]):
@@ -219,6 +222,10 @@ def oracle(case, rec):
         expect_proj('project_chain_to_samples',
                     np.asarray(call('project_chain_to_samples', 'proj', hv.copy(), chain.copy(), sub.copy(), cyc.copy()[:, None]), dtype=float).reshape(-1), e)
 
+    for name, (raw, snap) in held.items():
+        if not np.array_equal(np.asarray(raw, dtype=float), snap, equal_nan=True):
+            raise Violation('C16/%s/earlier-result-changed-by-a-later-call' % name,
+                            'the array returned by the first projection was overwritten by a later projection of the same shape')
     # the projections again through ONE cycle-vector object with several selections in turn (nothing may be remembered
     # from an earlier call): original selection, a rotated one, the original again
     shared = cyc.copy()
